@@ -12,6 +12,7 @@ import GcpVerif.Driver.KeyPath
 import GcpVerif.Driver.Prober
 import GcpVerif.Driver.Config
 import GcpVerif.Driver.Stream
+import GcpVerif.Driver.GME
 open GcpVerif.Driver
 
 structure DrvState where
@@ -20,6 +21,7 @@ structure DrvState where
   pool : PoolDrv.Sess := {}
   pb : PbDrv.Sess := {}
   st : Option GcpVerif.Stream.St := none
+  gme : GmeDrv.Sess := {}
 
 instance : Inhabited DrvState := ⟨{}⟩
 
@@ -38,6 +40,9 @@ def handleLine (st : DrvState) (ln : Nat) (line : String) : DrvState :=
   | "st" :: toks =>
     let (sess, rep) := StDrv.handle st.st { st.rep with lines := st.rep.lines + 1 } ln toks obs
     { st with st := sess, rep := rep }
+  | "gme" :: toks =>
+    let (sess, rep) := GmeDrv.handle st.gme { st.rep with lines := st.rep.lines + 1 } ln toks obs
+    { st with gme := sess, rep := rep }
   | "cfg" :: toks =>
     { st with rep := CfgDrv.handle { st.rep with lines := st.rep.lines + 1 } ln toks obs }
   | "kp" :: toks =>
